@@ -295,8 +295,10 @@ func (rs *RoachSource) Delete() {
 // start 1 goroutine per UDP source to wait on the data and package it properly.
 func (rs *RoachSource) StartRun() error {
 	go func() {
-		defer rs.Delete()
+		// Deferred calls run last-in-first-out: close the devices first and only then close nextBlock. Closing
+		// nextBlock lets Stop return, and the client may then Configure (which also calls Delete) at once.
 		defer close(rs.nextBlock)
+		defer rs.Delete()
 		nextBlock := make(chan *dataBlock)
 		for _, dev := range rs.active {
 			dev.abort = rs.abortSelf
